@@ -89,8 +89,8 @@ OBLIGATIONS = {
     "C01": ["Wiring", "Eval", "Gate", "Finished", "Events"], "C02": ["Wiring", "Eval"],
     "C03": ["Wiring", "Eval"], "C04": ["Wiring", "Eval", "Decide"], "C05": ["Wiring", "Eval", "Decide"],
     "C06": ["Wiring", "Eval", "ParLoop"], "C07": ["Wiring", "Eval", "Started", "Finished"],
-    "C08": ["Gate", "Events"], "C13": ["Ops", "Front", "Decide"], "C14": ["Started", "Wiring", "Eval"],
-    "C15": ["Subst", "Started", "ParLoop", "Eval", "Wiring"], "C17": ["Finished", "Started"], "C20": ["Finished", "Started"],
+    "C08": ["Gate", "Events", "Register"], "C13": ["Ops", "Front", "Decide"], "C14": ["Started", "Wiring", "Eval"],
+    "C15": ["Subst", "Started", "ParLoop", "Eval", "Wiring"], "C17": ["Finished", "Started", "Notify"], "C20": ["Finished", "Started", "Register"],
     "C18": ["Gate", "Wiring"], "C12": ["Front"],
 }
 RUNTIME = {"run": ["NetRun.vo", "Monitors.vo"], "config": ["NetRun.vo", "Monitors.vo"],
